@@ -174,6 +174,7 @@ type concViolation struct {
 	checkID string
 	from    int // first episode of the process it happened in
 	fu      int // -firstuse value of that process (-1: none)
+	family  string
 }
 
 func checkConc(prop, tier string, seed uint64, spec propSpec, start time.Time) int {
@@ -312,6 +313,47 @@ func checkConc(prop, tier string, seed uint64, spec propSpec, start time.Time) i
 		}(p)
 	}
 	wg.Wait()
+	// single-preemption sweep: for ordered pairs of short ops, preempt the
+	// first at every grid point of its solo length (deterministic plan, split
+	// over 16 workers; complete in the thorough tier, a prefix in the quick one)
+	sweepDur := 8
+	if tier == "thorough" {
+		sweepDur = 600
+	}
+	if dur < 20 {
+		sweepDur = 0
+	}
+	sweepTotal, sweepDone, sweepComplete := 0, 0, 0
+	if sweepDur > 0 {
+		var swg sync.WaitGroup
+		for i := 0; i < nw; i++ {
+			swg.Add(1)
+			go func(i int) {
+				defer swg.Done()
+				t := targets[i%min(2, len(cfgs))]
+				pfx := filepath.Join(b.Scratch, fmt.Sprintf("race-sweep-%d", i))
+				args := []string{"conc", "-config", t.cfg.Name, "-seed", fmt.Sprint(seed), "-worker", fmt.Sprint(100 + i), "-pool", poolFile,
+					"-ref", refFiles[t.cfg.Name], "-dur", fmt.Sprintf("%ds", sweepDur), "-family", "sweep", "-eidx", fmt.Sprint(i / min(2, len(cfgs))), "-en", fmt.Sprint((nw + 1) / min(2, len(cfgs)))}
+				r := runWorker(t.bin, args, t.env(pfx), time.Duration(sweepDur)*time.Second+10*time.Minute)
+				r.cfg, r.worker, r.firstuse, r.family = t.cfg.Name, 100+i, -1, "sweep"
+				if rep := readRaceLog(pfx); rep != "" {
+					r.raceLogs = []string{rep}
+				}
+				rmu.Lock()
+				results = append(results, r)
+				processes++
+				if r.stats != nil {
+					if n, ok := r.stats["notes"].(map[string]interface{}); ok {
+						sweepTotal = int(num(n, "sweep_total"))
+						sweepDone += int(num(n, "sweep_done"))
+						sweepComplete += int(num(n, "sweep_complete"))
+					}
+				}
+				rmu.Unlock()
+			}(i)
+		}
+		swg.Wait()
+	}
 	sort.SliceStable(results, func(i, j int) bool {
 		if results[i].worker != results[j].worker {
 			return results[i].worker < results[j].worker
@@ -331,16 +373,16 @@ func checkConc(prop, tier string, seed uint64, spec propSpec, start time.Time) i
 			rec := map[string]interface{}{"t": "violation", "prop": "C15", "check_id": "conc-race", "engine": "conc", "config": r.cfg, "seed": seed,
 				"worker": r.worker, "index": r.lastEp, "msg": "data race between library calls of different caller goroutines: " + raceSites(rep),
 				"race_report": normaliseRace(rep)}
-			viols = append(viols, concViolation{rec, r.cfg, r.worker, r.lastEp, rep, "conc-race", r.from, r.firstuse})
+			viols = append(viols, concViolation{rec, r.cfg, r.worker, r.lastEp, rep, "conc-race", r.from, r.firstuse, r.family})
 		case r.exit == 1 && len(r.viols) > 0:
 			v := r.viols[0]
-			viols = append(viols, concViolation{v, r.cfg, r.worker, int(num(v, "index")), "", fmt.Sprint(v["check_id"]), r.from, r.firstuse})
+			viols = append(viols, concViolation{v, r.cfg, r.worker, int(num(v, "index")), "", fmt.Sprint(v["check_id"]), r.from, r.firstuse, r.family})
 		case r.exit == 0 && r.stats != nil:
 			agg.addConc(r.stats)
 		case strings.Contains(r.stderr, "fatal error: concurrent map"):
 			rec := map[string]interface{}{"t": "violation", "prop": "C15", "check_id": "conc-race-fatal", "engine": "conc", "config": r.cfg, "seed": seed,
 				"worker": r.worker, "index": r.lastEp, "msg": "runtime detected unsynchronised concurrent map access: " + firstLine(r.stderr, "fatal error")}
-			viols = append(viols, concViolation{rec, r.cfg, r.worker, r.lastEp, "", "conc-race-fatal", r.from, r.firstuse})
+			viols = append(viols, concViolation{rec, r.cfg, r.worker, r.lastEp, "", "conc-race-fatal", r.from, r.firstuse, r.family})
 		default:
 			infraf("conc worker %d (%s) exited with status %d (last episode %d):\n%s", r.worker, r.cfg, r.exit, r.lastEp, tail(r.stderr, 30))
 		}
@@ -351,6 +393,10 @@ func checkConc(prop, tier string, seed uint64, spec propSpec, start time.Time) i
 		cfgNames = append(cfgNames, t.cfg.Name)
 	}
 	ev := agg.evidenceConc(tier, seed, spec, cfgNames, b, npool, time.Since(start).Seconds())
+	ev["coverage"].(map[string]interface{})["single_preemption_sweep"] = map[string]interface{}{
+		"plan_size_per_configuration": sweepTotal, "episodes_done": sweepDone, "workers_that_finished_their_share": sweepComplete,
+		"note": "ordered pairs of short pool ops; the first is preempted at every grid point (<= 240 per op, every point for ops of up to 240 points) of its measured solo length, the second runs to completion, the first resumes; deterministic plan split over the workers",
+	}
 	ev["coverage"].(map[string]interface{})["worker_processes"] = processes
 	ev["coverage"].(map[string]interface{})["worker_process_note"] = "one worker in four runs as a single long-lived process; the others are restarted every round and begin each life with a first-use twin episode"
 	code := exitOK
@@ -379,7 +425,11 @@ func checkConc(prop, tier string, seed uint64, spec propSpec, start time.Time) i
 				tg = t
 			}
 		}
-		path := finishConcViolation(b, tg.bin, tg.env, tg.family, poolFile, refFiles[v.cfg], seed, v, tier, npool)
+		fam := tg.family
+		if v.family != "" {
+			fam = v.family
+		}
+		path := finishConcViolation(b, tg.bin, tg.env, fam, poolFile, refFiles[v.cfg], seed, v, tier, npool)
 		fmt.Printf("VIOLATION property=%s replay=%s\n", prop, path)
 		fmt.Printf("  check=%s config=%s worker=%d episode=%d: %v\n", v.checkID, v.cfg, v.worker, v.idx, v.rec["msg"])
 		reported++
